@@ -2119,7 +2119,7 @@ class ktensor:
         factor_matrices = []
         for i in remdims:
             factor_matrices.append(self.factor_matrices[i])
-        return ttb.ktensor(factor_matrices, new_weights, copy=False)
+        return ttb.ktensor(factor_matrices, new_weights, copy=True)
 
     def update(self, modes: OneDArray, data: np.ndarray) -> ktensor:
         """Update a :class:`pyttb.ktensor` in the specific dimensions.
